@@ -203,7 +203,9 @@ Proof.
   destruct (hand_out (cluster_sort (cluster s3)) (workers_sort (workers s3)) (busy s3) (inflight s3) o1)
     as [[[[cl' w'] b'] fl'] o2] eqn:H.
   apply hand_out_spec in H. destruct H as (k & Hk & E3 & E4 & E5 & E6 & E7).
-  cbn [fst cluster inflight set_farm].
+  match goal with |- context [fst (if ?b then ?X else ?Y)] =>
+    replace (cluster (fst (if b then X else Y))) with cl' by (destruct b; reflexivity);
+    replace (inflight (fst (if b then X else Y))) with fl' by (destruct b; reflexivity) end.
   exists m. split; [|tauto].
   (* m is in the sorted cluster = handed part ++ remaining part *)
   assert (Hs : In m (cluster_sort (cluster s3))).
